@@ -186,6 +186,16 @@ theorem C04_reset_value_fails : ¬ C04_Full_reset_value := by
   simp at h2
 
 example : Coherent Flatland.Generated.C04.booleanDefault = true := by decide
+example : CoherentNone Flatland.Generated.C04.booleanDefault = true := by decide
+
+/-- the hypotheses of `reset_text_partial` / `reset_value_partial` hold for, e.g., an Enum over a
+    zero-padded unsigned Integer given a padded full-width text -/
+example :
+    let k : Kind := .constrained (.integer false 4) (.oneOf [.int 7, .int 42])
+    Modelled k = true ∧ Coherent k = true ∧ CoherentNone k = true ∧ WidthOK Flatland.Generated.C04.pyTables k = true ∧
+    NoHuge Flatland.Generated.C04.pyTables (.str " ４２ ".toList) = true ∧ Native.WF (.str " ４２ ".toList) = true ∧
+    ExactInput k (.str " ４２ ".toList) = true := by
+  decide
 example : ExactInput (.date true) (.date 2020 1 2) = true := rfl
 
 /-! ### signals of every element kind -/
